@@ -302,56 +302,53 @@ structure FNode where
   attrs : List FAttr
 deriving Repr, DecidableEq
 
-/-- number the parsed elements in preorder; `acc` maps number → node (as an assoc list, reversed). -/
-structure FlatSt where
-  next : Nat
-  nodes : List (Nat × FNode)
-
 mutual
-def flatElem : PElem → FlatSt → Nat × FlatSt
-  | .mk ty nm u attrs, st =>
-    let me := st.next
-    let (fattrs, st) := flatAttrs attrs { st with next := st.next + 1 }
-    (me, { st with nodes := (me, { type := ty, name := nm, uuid := u, attrs := fattrs }) :: st.nodes })
-def flatAttrs : List PAttr → FlatSt → List FAttr × FlatSt
-  | [], st => ([], st)
-  | .mk n t arr vals :: rest, st =>
-    let (fv, st) := flatVals vals st
-    let (fr, st) := flatAttrs rest st
-    ({ name := n, type := t, isArray := arr, vals := fv } :: fr, st)
-def flatVals : List PVal → FlatSt → List FVal × FlatSt
-  | [], st => ([], st)
-  | v :: rest, st =>
-    match v with
-    | .null => let (fr, st) := flatVals rest st; (.null :: fr, st)
-    | .uuid u => let (fr, st) := flatVals rest st; (.uuid u :: fr, st)
-    | .text s => let (fr, st) := flatVals rest st; (.text s :: fr, st)
-    | .inline e =>
-      let (k, st) := flatElem e st
-      let (fr, st) := flatVals rest st
-      (.node k :: fr, st)
+/-- the nodes of a parsed element and its inline descendants in preorder; the element itself gets
+number `base`, its inline descendants the following numbers. -/
+def flatElem : PElem → Nat → List FNode
+  | .mk ty nm u attrs, base =>
+    let r := flatAttrs attrs (base + 1)
+    { type := ty, name := nm, uuid := u, attrs := r.1 } :: r.2
+/-- attributes with inline elements replaced by their numbers, and the nodes of those elements;
+`next` is the first free number. -/
+def flatAttrs : List PAttr → Nat → List FAttr × List FNode
+  | [], _ => ([], [])
+  | .mk n t arr vals :: rest, next =>
+    let r1 := flatVals vals next
+    let r2 := flatAttrs rest (next + r1.2.length)
+    ({ name := n, type := t, isArray := arr, vals := r1.1 } :: r2.1, r1.2 ++ r2.2)
+def flatVals : List PVal → Nat → List FVal × List FNode
+  | [], _ => ([], [])
+  | .null :: rest, next => let r := flatVals rest next; (.null :: r.1, r.2)
+  | .uuid u :: rest, next => let r := flatVals rest next; (.uuid u :: r.1, r.2)
+  | .text s :: rest, next => let r := flatVals rest next; (.text s :: r.1, r.2)
+  | .inline e :: rest, next =>
+    let k := flatElem e next
+    let r := flatVals rest (next + k.length)
+    (.node next :: r.1, k ++ r.2)
 end
 
-def flatTop : List PElem → FlatSt → FlatSt
-  | [], st => st
-  | e :: es, st => flatTop es (flatElem e st).2
+def flatTop : List PElem → Nat → List FNode
+  | [], _ => []
+  | e :: es, base => let k := flatElem e base; k ++ flatTop es (base + k.length)
+
+/-- `id_to_elem[uuid]`: the last node defining that UUID. -/
+def idOf (nodes : List FNode) (u : Str) : Option Nat :=
+  (List.range nodes.length).reverse.find? fun k =>
+    match nodes[k]? with
+    | some n => n.uuid == some u
+    | none => false
+
+def fixVal (nodes : List FNode) : FVal → FVal
+  | .uuid u => (match idOf nodes u with | some k => .node k | none => .uuid u)
+  | v => v
 
 /-- The result of `parse_kv2`: nodes in preorder (node 0 is the returned root), references
 resolved: a UUID that names a parsed element (the last one defining it) becomes that node, any
 other UUID stays a stub. -/
 def resolve (tops : List PElem) : List FNode :=
-  let st := flatTop tops { next := 0, nodes := [] }
-  let nodes := (List.range st.next).filterMap fun k => (st.nodes.find? (·.1 == k)).map (·.2)
-  let idOf (u : Str) : Option Nat :=
-    -- id_to_elem[uuid] = elem : later definitions win
-    ((List.range st.next).reverse.find? fun k =>
-      match nodes[k]? with
-      | some n => n.uuid == some u
-      | none => false)
-  nodes.map fun n => { n with attrs := n.attrs.map fun a => { a with vals := a.vals.map fun v =>
-    match v with
-    | .uuid u => (match idOf u with | some k => FVal.node k | none => FVal.uuid u)
-    | v => v } }
+  let nodes := flatTop tops 0
+  nodes.map fun n => { n with attrs := n.attrs.map fun a => { a with vals := a.vals.map (fixVal nodes) } }
 
 /-- `Element.parse_kv2` on the text after the header line. `cfold` is `str.casefold` per character. -/
 def parse (E : Tok.Tables) (T : Tables) (cfold : Char → List Char) (text : Str) :
